@@ -37,6 +37,7 @@ Fails(r) ==
        [] k = "values_differ" -> got = orig
        [] k = "address" -> msg => r.addr = r.addr_scanned
        [] k = "reprint_differs" -> r.again_equal
-       [] k = "wrote_before_buffer" -> r.before \in {32, 10} }
+       \* the byte in front of the caller's buffer is not the printer's: a list printed from column 0 has nothing in front of its first value to break the line at
+       [] k = "wrote_before_buffer" -> r.before = 32 }
 Judge == l < 0 \/ LET f == Fails(Log[l]) IN f = {} \/ PrintT(<<"REJECT", l, f>>)
 =============================================================================
